@@ -75,10 +75,10 @@ def gen_coords(rng, dim, n, style):
             rows.append(r)
     elif style == "negzero":
         tiny = [-0.0, -1e-9, -4e-7, 0.0, 1e-9, 4e-7, -4.9e-7]
+        a = rng.randrange(dim)  # the axis that keeps rows apart: no rounded duplicates
         for i in range(n * 2):
             r = [float(rng.choice(tiny)) if rng.random() < 0.6 else float(rng.randint(-5, 5)) for _ in range(dim)]
-            a = rng.randrange(dim)
-            r[a] = float(3 * i + rng.choice([0, 1]))  # keeps rows apart: no rounded duplicates
+            r[a] = float(3 * (i - n) + rng.choice([0, 1])) + 1.0
             rows.append(r)
     elif style == "twins":
         # distinct as given, equal after rounding (the constructor accepts them)
@@ -95,6 +95,10 @@ def gen_coords(rng, dim, n, style):
     rng.shuffle(rows)
     rows = rows[:n] if style != "twins" else rows[: n + 2]
     return rows or [[0.0] * dim]
+
+
+def _wf(coords):
+    return bool(coords) and len(coords[0]) in (2, 3) and all(len(c) == len(coords[0]) for c in coords)
 
 
 def _same_cell(x, y):
@@ -342,4 +346,41 @@ def gen_case(rng, tier):
     if rdm and rng.random() < 0.03:
         rdm[-1][1] = -0.5
     case["rdm"] = rdm
+
+    # ---- Register({qid: coord}, layout=A, trap_ids=ids) built by hand
+    direct, dids = [], []
+    if n and _wf(coords):
+        srt = sorted(tuple(float(v) for v in row) for row in np.round(np.array(coords, dtype=float), 6))
+        k = rng.randint(1, min(n, 6))
+        dids = rng.sample(range(n), k)
+        codes = rng.sample(range(60), k)
+        direct = [[q, list(srt[t])] for q, t in zip(codes, dids)]
+        r = rng.random()
+        if r < 0.55:
+            pass
+        elif r < 0.63:
+            j = rng.randrange(k)
+            a = rng.randrange(len(direct[j][1]))
+            direct[j][1][a] += rng.choice([1e-6, -1e-6, 1e-9, 1.0])
+        elif r < 0.7 and k > 1:
+            dids[0], dids[1] = dids[1], dids[0]
+        elif r < 0.76:
+            # the coordinates as given to the layout (not rounded)
+            given = {tuple(float(v) for v in np.round(np.array(c0, dtype=float), 6)): c0 for c0 in coords}
+            direct = [[q, list(given.get(tuple(p), p))] for q, p in direct]
+        elif r < 0.8:
+            dids = dids + [rng.randrange(n)]
+        elif r < 0.84:
+            dids[rng.randrange(k)] = rng.choice([n, n + 2])
+        elif r < 0.88 and k > 1:
+            dids[-1] = dids[0]
+        elif r < 0.91:
+            direct = [[q, p + [0.0]] for q, p in direct]
+        elif r < 0.94:
+            direct = [[q, [(-v if v == 0.0 else v) for v in p]] for q, p in direct]
+        elif r < 0.96 and k > 1:
+            direct[0][1] = direct[0][1][:-1]
+        elif r < 0.98:
+            direct, dids = [], []
+    case["direct"], case["dids"] = direct, dids
     return case
